@@ -577,6 +577,25 @@ class OraclesMixin:
                     )
                 raise Skip("export names vs model")
             toks = [m.tok_of_name(n) for n in vis_cols] + [self.ref_toks[r] for r in pr]
+            if self.fam & {"O9", "O16", "O6", "O8"}:
+                # a reference to a column that is visible denotes that very column: the probe column
+                # repeats it cell by cell (this needs no decoding, so it also holds after a union)
+                nv = len(vis_cols)
+                for j, rid in enumerate(pr):
+                    tk = self.ref_toks[rid]
+                    if tk in toks[:nv]:
+                        i = toks.index(tk)
+                        badrow = next((row for row in rows if row[i] != row[nv + j]), None)
+                        if badrow is not None:
+                            self.violate(
+                                prop if prop in ("C09", "C16", "C06", "C08") else "C09",
+                                "O9.1" if "O8" not in self.fam else "O8.decode",
+                                f"after `{op}` on {rep}: the reference to the visible column {vis_cols[i]!r} yields {badrow[nv + j]!r} in a row where the column holds {badrow[i]!r}",
+                                op=op,
+                                rep=rep,
+                                kind="probe_vs_visible",
+                                tail="/".join(m.verbs[-3:]),
+                            )
             if self.fam & {"O6", "O9", "O16", "O10", "O8"}:
                 bad = self.check_rows(pt, toks, rows)
                 if bad is not None:
